@@ -75,6 +75,38 @@ def tagval(st):
 for st in ('EventSource', 'WriterProp', 'ClockSync'):
     fact('tag_%s' % st, 'N', '%d%%N' % tagval(st))
 
+# ---------------------------------------------------------------- Time.cpp / PrettyPrinter.cpp (C17, C09)
+tc = src('include/binlog/Time.cpp'); pp = src('include/binlog/PrettyPrinter.cpp')
+def has(text, pat): return bool(re.search(pat, text, re.S))
+tk = body_of(tc, r'ticksToNanoseconds\s*\(')
+fact('time_ticks_formula', 'bool', coq_bool(
+    has(tk, r'const\s+std::int64_t\s+sf\s*=\s*std::int64_t\s*\(\s*frequency\s*\)\s*;') and
+    has(tk, r'const\s+std::int64_t\s+q\s*=\s*ticks\s*/\s*sf\s*;') and has(tk, r'const\s+std::int64_t\s+r\s*=\s*ticks\s*%\s*sf\s*;') and
+    has(tk, r'return\s+std::chrono::nanoseconds\s*\{\s*q\s*\*\s*std::nano::den\s*\+\s*r\s*\*\s*std::nano::den\s*/\s*sf\s*\}\s*;') and tk.count(';') == 4))
+ck = body_of(tc, r'clockToNsSinceEpoch\s*\(')
+fact('time_clock_formula', 'bool', coq_bool(
+    has(ck, r'diffValue\s*=\s*std::int64_t\s*\(\s*clockValue\s*-\s*clockSync\.clockValue\s*\)\s*;') and
+    has(ck, r'diff\s*=\s*ticksToNanoseconds\s*\(\s*clockSync\.clockFrequency\s*,\s*diffValue\s*\)\s*;') and
+    has(ck, r'sinceEpoch\s*=\s*nanos\s*\{\s*clockSync\.nsSinceEpoch\s*\}\s*\+\s*diff\s*;') and has(ck, r'return\s+sinceEpoch\s*;')))
+bd = body_of(tc, r'nsSinceEpochToBrokenDownTimeUTC\s*\(')
+fact('time_floor', 'bool', coq_bool(
+    has(bd, r'auto\s+seconds\s*=\s*std::chrono::duration_cast<\s*std::chrono::seconds\s*>\s*\(\s*sinceEpoch\s*\)\s*;\s*if\s*\(\s*std::chrono::nanoseconds\s*\{\s*seconds\s*\}\s*>\s*sinceEpoch\s*\)\s*\{\s*seconds\s*-=\s*std::chrono::seconds\s*\{\s*1\s*\}\s*;\s*\}') and
+    has(bd, r'remainder\s*\{\s*sinceEpoch\s*-\s*seconds\s*\}') and has(bd, r'dst\.tm_nsec\s*=\s*int\s*\(\s*remainder\.count\s*\(\s*\)\s*\)')))
+fact('time_yy_nonneg', 'bool', coq_bool(has(pp, r"case\s+'y'\s*:\s*printTwoDigits\s*\(\s*out\s*,\s*\(\s*\(\s*bdt\.tm_year\s*%\s*100\s*\)\s*\+\s*100\s*\)\s*%\s*100\s*\)\s*;")))
+tzb = body_of(pp, r'void\s+printTimeZoneOffset\s*\(')
+fact('time_tz_wide', 'bool', coq_bool(
+    has(tzb, r'psecs\s*=\s*std::abs\s*\(\s*std::int64_t\s*\{\s*seconds\s*\}\s*\)\s*;') and has(tzb, r'hours\s*=\s*int\s*\(\s*psecs\s*/\s*3600\s*\)') and
+    has(tzb, r'mins\s*=\s*int\s*\(\s*\(\s*psecs\s*/\s*60\s*\)\s*-\s*60\s*\*\s*hours\s*\)') and
+    has(tzb, r'printTwoDigits\s*\(\s*out\s*,\s*hours\s*<\s*100\s*\?\s*hours\s*:\s*0\s*\)') and has(tzb, r'printTwoDigits\s*\(\s*out\s*,\s*mins\s*<\s*100\s*\?\s*mins\s*:\s*0\s*\)')))
+lt = body_of(pp, r'PrettyPrinter::printProducerLocalTime\s*\(')
+ut = body_of(pp, r'PrettyPrinter::printUTCTime\s*\(')
+fact('time_local_adds_offset', 'bool', coq_bool(
+    has(lt, r'if\s*\(\s*std::int64_t\s*\(\s*_clockSync->clockFrequency\s*\)\s*>\s*0\s*\)') and
+    has(lt, r'sinceEpochTz\s*=\s*sinceEpoch\s*\+\s*std::chrono::seconds\s*\{\s*_clockSync->tzOffset\s*\}\s*;\s*nsSinceEpochToBrokenDownTimeUTC\s*\(\s*sinceEpochTz\s*,\s*bdt\s*\)\s*;\s*printTime\s*\(\s*out\s*,\s*bdt\s*,\s*_clockSync->tzOffset\s*,\s*_clockSync->tzName\.data\s*\(\s*\)\s*\)') and
+    has(lt, r'no_clock_sync\?') and
+    has(ut, r'if\s*\(\s*std::int64_t\s*\(\s*_clockSync->clockFrequency\s*\)\s*>\s*0\s*\)') and
+    has(ut, r'nsSinceEpochToBrokenDownTimeUTC\s*\(\s*sinceEpoch\s*,\s*bdt\s*\)\s*;\s*printTime\s*\(\s*out\s*,\s*bdt\s*,\s*0\s*,\s*"UTC"\s*\)') and has(ut, r'no_clock_sync\?')))
+
 out = ['(* GENERATED by tools/srcfacts.py from %s -- do not edit *)' % vlib.REPO,
        'From Coq Require Import List NArith String.', 'Import ListNotations.', 'Local Open Scope string_scope.', ''] + facts + ['']
 os.makedirs(os.path.join(vlib.COQ, 'Gen'), exist_ok=True)
